@@ -517,6 +517,15 @@ func TestConfig(t *testing.T) {
 			detail = fmt.Sprintf("loaded list %+v", res.Frozen)
 		}
 		if sig == "" {
+			// the node reads its parameters through three handles: the returned value, config.Parameters, config.DefaultParams
+			for name, v := range map[string]*config.Configuration{"config.Parameters": config.Parameters, "config.DefaultParams": &config.DefaultParams} {
+				if v == nil || fmt.Sprintf("%+v", v.FrozenAddresses) != fmt.Sprintf("%+v", cfg.FrozenAddresses) {
+					sig = "C32:SetupConfig:" + name + ":differs-from-returned-configuration"
+					detail = fmt.Sprintf("%+v vs %+v", v, cfg.FrozenAddresses)
+				}
+			}
+		}
+		if sig == "" {
 			// every resolved entry must freeze the address it names
 			for _, f := range cfg.FrozenAddresses {
 				if f.ProgramHash == nil {
